@@ -206,7 +206,10 @@ class Fake:
             self.parsed.append((kind, ch, (v,)))
             lo, hi = RANGE[kind]
             if not (lo <= v <= hi):
-                self.flag(f'cmd:out-of-range:{REGNAME[kind]}', f'{short!r}: {v} outside ({lo}, {hi})')
+                # a value beyond a limit by no more than 1e-6 of it is the rounding of a narrower float type that reached the
+                # wire unformatted: still outside the documented limits, reported under its own key
+                near = min(abs(v - lo), abs(v - hi)) <= 1e-6 * max(abs(lo), abs(hi))
+                self.flag(f'cmd:out-of-range:{REGNAME[kind]}' + (':by-rounding' if near else ''), f'{short!r}: {v!r} outside ({lo}, {hi})')
             r[kind] = v
             return '\n'
         if kind == 'type':
@@ -270,7 +273,7 @@ def chan_list(chs):
     """-> (requested list, any-out-of-range)"""
     if chs is None:
         return list(range(1, NCH + 1)), False
-    if isinstance(chs, int):
+    if isinstance(chs, (int, np.integer)):
         chs = [chs]
     chs = [int(c) for c in chs]
     return chs, (any(c < 1 or c > NCH for c in chs) or len(chs) > NCH)
